@@ -625,8 +625,10 @@ zif_find_zrng(zif_t z, stamp_t t)
 static stamp_t
 __tai_offs(stamp_t t)
 {
-	/* difference of TAI and UTC at epoch instant */
-	zidx_t zi = leaps_before_si32(leaps_s, nleaps_corr, t);
+	/* difference of TAI and UTC at epoch instant,
+	 * the table is in 32-bit seconds, saturate */
+	int32_t t32 = t < INT32_MAX ? t > INT32_MIN ? (int32_t)t : INT32_MIN : INT32_MAX;
+	zidx_t zi = leaps_before_si32(leaps_s, nleaps_corr, t32);
 
 	return leaps_corr[zi];
 }
